@@ -20,6 +20,8 @@ def check(ctx):
     ctx.sub(s1_s2_s3_execute)
     ctx.sub(s2_handler)
     ctx.sub(s4_fee_models)
+    from . import c18
+    ctx.sub(c18.closure_memos)      # a fee remembered by a decorator must be filed under everything it was computed from (the rates of THIS fee model)
     from . import c01, c08
     ctx.sub(c08.funding)            # 'the configured fee model': a backtest session hands its fee model to the broker it builds
     ctx.sub(c01.s2_deltas)          # what the portfolio is debited is price x quantity plus that commission, unmodified (never negated for a sell)
